@@ -625,6 +625,47 @@ def main(run):
                                       "covariance of the displacements generate_displacements produces differs from the canonical covariance of the "
                                       "current supercell by %.3g (scale %.3g)" % (np.abs(cov_api - C).max(), np.abs(C).max()), info)
 
+    # ---- the same through calculators whose length unit is not Angstrom: generate_displacements(temperature) hands the
+    # displacements back in the calculator's length unit (units["distance_to_A"]), so their covariance is the canonical one of the
+    # supercell expressed in that unit  (seeded change r7-c19: the division by distance_to_A was dropped)
+    for calc, uen in (("qe", Rydberg), ("elk", Hartree), ("vasp", 1.0)) if not thorough else (("qe", Rydberg), ("elk", Hartree), ("wien2k", Rydberg / 1000), ("turbomole", Hartree), ("vasp", 1.0), ("crystal", 1.0)):
+        units_ = get_default_physical_units(calc)
+        d2A, fac_ = float(units_["distance_to_A"]), float(units_["factor"])
+        name = rng.choice(["cscl", "nacl_prim", "tri1"])
+        smat = rng.choice([np.diag([2, 2, 1]), np.array([[2, 1, 0], [0, 2, 0], [0, 0, 1]])])
+        cell = make_cell(name)
+        try:
+            phA_ = Phonopy(cell, supercell_matrix=smat, primitive_matrix="P", log_level=0)
+            fcA_ = gen.pair_fc(phA_.supercell, 4.5)
+            cellu = cell.copy()
+            cellu.cell = cell.cell / d2A
+            phu = Phonopy(cellu, supercell_matrix=smat, primitive_matrix="P", log_level=0, factor=fac_, calculator=calc)
+        except Exception:
+            run.count("constructor-rejected")
+            continue
+        phu.force_constants = fcA_ * d2A ** 2 / uen
+        T = rng.choice([50.0, 300.0, 900.0])
+        def _gen_u():
+            phu.generate_displacements(number_of_snapshots=1, temperature=T)
+            return phu.displacements
+        G_u = generator_linear_map(_gen_u)
+        info = dict(cell=name, smat=np.array(smat).tolist(), calculator=calc, distance_to_A=d2A, factor=fac_, T=T)
+        run.case(("calc-units", name, np.array(smat).tolist(), calc, T), nontrivial=d2A != 1.0)
+        run.count("api calculator units: %s" % calc)
+        if G_u is None:
+            run.count("oracle-api-sequence: generate_displacements not observable through Generator.standard_normal", section="oracle")
+            continue
+        C_, rank_, fsc_ = dense_oracle(phu, T, 0.01, "quantum", fac_)
+        if np.abs(fsc_ - 0.01).min() <= 1e-6:
+            continue
+        cov_u = G_u @ G_u.T * d2A ** 2  # Angstrom^2
+        run.count("oracle-api-calculator-units-vs-dense-covariance", section="oracle")
+        if np.abs(cov_u - C_).max() > 1e-8 * max(np.abs(C_).max(), 1e-300):
+            tr = float(np.trace(cov_u) / max(np.trace(C_), 1e-300))
+            run.violation("Phonopy.generate_displacements(temperature)", "calculator-length-unit",
+                          "covariance of the generated displacements (calculator %s, length unit %.6g Angstrom) differs from the canonical covariance "
+                          "of the supercell by %.3g (scale %.3g); trace ratio %.4g" % (calc, d2A, np.abs(cov_u - C_).max(), np.abs(C_).max(), tr), info)
+
     # =========================================================== thermal displacements
     ntd = 72 if thorough else 8
     f13_hits = 0
